@@ -5,6 +5,15 @@ or a type-checked structural rewrite.
 Every instance is recorded in the woven file (original text base64 in the marker) and
 listed in the evidence."""
 SHIMS = {
+    'vec-from-slice': dict(pattern=r'Vec::from\((\w+)\)', replace=r'vec_from_slice(\1)', spec='r@ == s@'),
+    # modes.iter().map(CLOSURE).collect::<Vec<_>>()  -> slice_map_collect(modes, CLOSURE); the closure text is untouched (and annotated by @closure)
+    'map-collect-open': dict(pattern=r'\b(\w+)\.iter\(\)\.map\((?=\|m\|)', replace=r'slice_map_collect(\1, ', spec='elementwise map, see slice_map_collect'),
+    'map-collect-close': dict(pattern=r'\)\.collect::<Vec<_>>\(\)', replace=r')', spec='(closing half of map-collect)'),
+    'vec-any-eq': dict(pattern=r'\b(\w+)\.iter\(\)\.any\(\|m\| \*m == (\w+)\)', replace=r'vec_any_eq(&\1, \2)', spec='r == v@.contains(k)'),
+    'hs-extend-vec': dict(pattern=r'\b(self\.\w+)\.extend\((\w+)\.iter\(\)\);', replace=r'hs_extend_vec(&mut \1, &\2);', spec="S' = S u set(v)"),
+    'hs-minus-vec': dict(pattern=r'self\s*\.mode\s*\.iter\(\)\s*\.filter\(\|&&x\| !(\w+)\.iter\(\)\.any\(\|&y\| x == y\)\)\s*\.cloned\(\)\s*\.collect\(\)', replace=r'hs_minus_vec(&self.mode, &\1)', spec="r = S \\ set(v)"),
+    'buffer-set-reverse': dict(pattern=r'for line in self\.buffer\.values_mut\(\) \{\s*(?://[^\n]*\n\s*)*for x in line\.iter_mut\(\) \{\s*x\.1\.reverse = (true|false);\s*\}\s*\}', replace=r'buffer_set_reverse(&mut self.buffer, \1);', spec='every stored cell: reverse := R, nothing else'),
+    'buffer-remove-columns': dict(pattern=r'for line in self\.buffer\.values_mut\(\) \{\s*for x in (\w+)\.\.(self\.\w+) \{\s*line\.remove\(&x\);\s*\}\s*\}', replace=r'buffer_remove_columns(&mut self.buffer, \1, \2);', spec='every stored row: keys lo..hi removed, nothing else'),
     # HashSet<u32>::extend(range)  ->  call-out with spec  S' = S u [a,b)
     'hs-extend-range': dict(pattern=r'\b(self\.\w+)\.extend\(((?:[^();]|\([^()]*\))*)\);', replace=r'hs_extend_range(&mut \1, \2);',
                             spec="forall v: S'.contains(v) == (S.contains(v) || a <= v < b)"),
